@@ -20,9 +20,9 @@ import (
 func init() { profiles["mergerace"] = profMergeRace }
 
 func profMergeRace(en *Env) {
-	bases := 2 * en.Scale
+	bases := 12 * en.Scale
 	if en.Thorough() {
-		bases = 12 * en.Scale
+		bases = 40 * en.Scale
 	}
 	runs := 0
 	for b := 0; b < bases; b++ {
@@ -39,7 +39,7 @@ type raceOp struct {
 func mergeRaceBase(en *Env, b int) int {
 	r := en.R
 	nkeys := 3
-	limit := []int64{250, 500, 4000}[b%3]
+	limit := []int64{120, 250, 500, 4000}[b%4]
 	index := h.IndexTypes[b%3]
 	// the history whose records the merge will scan (same for every run of this base)
 	type hop struct {
@@ -54,12 +54,14 @@ func mergeRaceBase(en *Env, b int) int {
 	nrec := len(hist) + 1
 	runs := 0
 	points := []string{"merge.scan", "merge.rewrite"}
-	clientOps := [][]raceOp{{{"Put", 1}}, {{"Delete", 1}}, {{"Put", 2}}, {{"Delete", 2}}, {{"Put", 3}, {"Delete", 1}}, {{"Batch", 2}}, {{"Delete", 3}, {"Put", 3}}}
+	clientOps := [][]raceOp{{{"Put", 1}}, {{"Delete", 1}}, {{"Put", 2}}, {{"Delete", 2}}, {{"Put", 3}, {"Delete", 1}}, {{"Batch", 2}}, {{"Delete", 3}, {"Put", 3}},
+		// further Merge calls while the first one is parked (each must answer "in progress" and leave the running merge alone)
+		{{"Merge", 0}, {"Merge", 0}}, {{"Merge", 0}, {"Delete", 1}, {"Delete", 2}, {"Merge", 0}}, {{"Merge", 0}, {"Put", 1}, {"Merge", 0}, {"Delete", 3}}}
 	for _, point := range points {
 		for at := 1; at <= nrec; at++ {
 			for ci, cops := range clientOps {
-				if !en.Thorough() && (at+ci)%3 != 0 {
-					continue // quick tier: a third of the grid
+				if !en.Thorough() && ci < 7 && (at+ci)%3 != 0 {
+					continue // quick tier: a third of the grid of single-merge runs, every run with overlapping Merge calls
 				}
 				cfg := h.Cfg{Index: index, Shards: 4, IO: h.IOTypes[(at+ci)%2], Limit: limit, Sync: "no"}
 				dir := en.FreshDir()
@@ -100,6 +102,9 @@ func mergeRaceBase(en *Env, b int) int {
 					reached = true
 				case merr = <-mergeErr:
 				}
+				if !reached {
+					kv.VerifPoint = nil // the merge is over: a client's own Merge must not be parked at the point
+				}
 				for _, c := range cops {
 					switch c.op {
 					case "Put":
@@ -107,6 +112,8 @@ func mergeRaceBase(en *Env, b int) int {
 						e.Put(c.k, id)
 					case "Delete":
 						e.Delete(c.k)
+					case "Merge":
+						e.Merge()
 					case "Batch":
 						e.NewBatch(false)
 						id, _ := vs.New(15 + r.Intn(40))
